@@ -522,7 +522,14 @@ class C17Executor(Executor):
                 if self._pure_comprehension(n):
                     # round 6: str methods on the loop variables (`k.lower()`): still a dict of attribute values; a method on a
                     # value may meet None -> may raise
-                    self.exc_any(r[0][0].fork(), f"{self.loc(n)} method call on an attribute name / value in a comprehension")
+                    # value may meet None -> may raise; a total str method on the NAME (first component, always a str) cannot
+                    tgt = n.generators[0].target
+                    name_var = tgt.elts[0].id if isinstance(tgt, ast.Tuple) and len(tgt.elts) == 2 and isinstance(tgt.elts[0], ast.Name) else None
+                    total = all(isinstance(x.func, ast.Attribute) and isinstance(x.func.value, ast.Name) and x.func.value.id == name_var
+                                and x.func.attr in ("lower", "upper", "casefold", "strip") and not x.args and not x.keywords
+                                for p in parts for x in ast.walk(p) if isinstance(x, ast.Call))
+                    if not total:
+                        self.exc_any(r[0][0].fork(), f"{self.loc(n)} method call on an attribute value in a comprehension")
                     return [(r[0][0], VExt("AttrDict"))]
         return super().e_DictComp(n, st)
 
